@@ -101,12 +101,19 @@ ServedWMSC(g, box, a) ==
   ELSE LET c == ClientTMS(<<box[1], box[2]>>, g, a) IN
        IF \E t \in InGridTiles(g, TmsLevel(g, a[3])) : TileBBox(g, t) = c THEN c ELSE NoRect
 WmscConsistent(g, box) == \A n \in TmsOrders(g) : \A a \in WmscAdvertised(g, box, n) : ServedWMSC(g, box, a) # NoRect
-\* characterisation: the corner of the BoundingBox lies on a tile corner of every level
+\* characterisation: the corner of the BoundingBox lies on a tile corner of every level, and the tile matrix of every
+\* level reaches the far edges of the BoundingBox (_calc_grids floors a partial last pixel: a level can end a fraction
+\* of a pixel before the bbox, and the tile a client computes for that strip is not a tile of the grid)
 WmscExpect(g, box) ==
   \A n \in TmsOrders(g) :
-    LET r == Res(g, TmsLevel(g, n)) IN
+    LET l == TmsLevel(g, n)
+        r == Res(g, l) IN
     /\ (box[1] - g.bbox[1]) % (g.tw * r) = 0
-    /\ IF g.ul THEN (g.bbox[4] - box[2]) % (g.th * r) = 0 ELSE (box[2] - g.bbox[2]) % (g.th * r) = 0
+    /\ (box[1] - g.bbox[1]) \div (g.tw * r) + CeilDiv(box[3] - box[1], g.tw * r) <= GridSize(g, l)[1]
+    /\ IF g.ul THEN /\ (g.bbox[4] - box[2]) % (g.th * r) = 0
+                    /\ (g.bbox[4] - box[2]) \div (g.th * r) <= GridSize(g, l)[2]
+       ELSE /\ (box[2] - g.bbox[2]) % (g.th * r) = 0
+            /\ (box[2] - g.bbox[2]) \div (g.th * r) + CeilDiv(box[4] - box[2], g.th * r) <= GridSize(g, l)[2]
 
 \* same ground tile through different conventions: a south-counted and a north-counted address of the same
 \* level denote the same tile iff their rows mirror each other
